@@ -99,6 +99,7 @@ func LoadEngine(cfg LoadConfig) (*Engine, error) {
 	eng := &Engine{prog: prog, fset: prog.Fset, globals: map[*ssa.Global]*Cont{}, initPkgs: map[string]bool{}, stubs: map[string]*ssa.Function{}}
 	eng.sizes = types.SizesFor("gc", "amd64")
 	eng.initIntrinsics()
+	eng.initReflect()
 	if rt := prog.ImportedPackage("runtime"); rt != nil {
 		if t := rt.Type("errorString"); t != nil {
 			eng.rtErrType = t.Type()
